@@ -7,11 +7,11 @@ pointer-equality flag of the two operands' variable lists; the reachable-state i
 `p = true → a.vars = b.vars`.  All statements hold over every commutative ring `α` (so over ℝ, and
 over the jets used for C01/C02); f64 rounding is modelled, not verified.
 
-Second-order numbers: the same alignment code path (`Dual2.aligned`) is used; its name-indexed
-theorems are stated for the gradient part here and the Hessian part is covered by the
-correspondence run (exhaustive over layouts) — see DESIGN.md "C03 partial".
+Second-order numbers (`C03_*_dual2`): the same statements with, in addition, the stored (half) second
+derivative `den2 d n w` per PAIR of names; `×` is the product rule with the symmetrised cross term.
+(`==` for second-order numbers is covered by the correspondence run only.)
 -/
-import RateslibModel.Proofs.DualOps
+import RateslibModel.Proofs.Dual2Layout
 namespace Rateslib
 open Dual
 
@@ -72,8 +72,78 @@ theorem C03_ptr_irrelevant (a b : Dual α) (h : a.vars = b.vars) :
     add true a b = add false a b ∧ sub true a b = sub false a b ∧ mul true a b = mul false a b := by
   simp only [add, sub, mul, aligned_ptr_irrelevant a b h, and_self]
 
+/-! ### second-order numbers -/
+section Second
+variable [Div α]
+
+/-- Shape and names of `+`, `−`, `×` on second-order numbers: well-formed (square Hessian of matching
+size), exactly the union of the operands' names. -/
+theorem C03_wf_dual2 (p : Bool) (a b : Dual2 α) (ha : a.WF) (hb : b.WF) (hp : p = true → a.vars = b.vars) :
+    ((Dual2.add p a b).WF ∧ ∀ n, n ∈ (Dual2.add p a b).vars ↔ n ∈ a.vars ∨ n ∈ b.vars) ∧
+    ((Dual2.sub p a b).WF ∧ ∀ n, n ∈ (Dual2.sub p a b).vars ↔ n ∈ a.vars ∨ n ∈ b.vars) ∧
+    ((Dual2.mul p a b).WF ∧ ∀ n, n ∈ (Dual2.mul p a b).vars ↔ n ∈ a.vars ∨ n ∈ b.vars) :=
+  ⟨⟨(Dual2.add_spec p a b ha hb hp).wf, (Dual2.add_spec p a b ha hb hp).mem⟩,
+   ⟨(Dual2.sub_spec p a b ha hb hp).wf, (Dual2.sub_spec p a b ha hb hp).mem⟩,
+   ⟨(Dual2.mul_spec p a b ha hb hp).wf, (Dual2.mul_spec p a b ha hb hp).mem⟩⟩
+
+/-- `+`, `−`, `×` on second-order numbers act name by name and name-pair by name-pair, whatever the
+stored layout: value, gradient and (half) Hessian of the result are the sum, difference and
+second-order product rule of the operands' — the cross term is `½ (aₙ b_w + a_w bₙ)`. -/
+theorem C03_hom_dual2 (p : Bool) (a b : Dual2 α) (ha : a.WF) (hb : b.WF)
+    (hp : p = true → a.vars = b.vars) (n w : String) :
+    ((Dual2.add p a b).real = a.real + b.real ∧
+      Dual2.den (Dual2.add p a b) n = Dual2.den a n + Dual2.den b n ∧
+      Dual2.den2 (Dual2.add p a b) n w = Dual2.den2 a n w + Dual2.den2 b n w) ∧
+    ((Dual2.sub p a b).real = a.real - b.real ∧
+      Dual2.den (Dual2.sub p a b) n = Dual2.den a n - Dual2.den b n ∧
+      Dual2.den2 (Dual2.sub p a b) n w = Dual2.den2 a n w - Dual2.den2 b n w) ∧
+    ((Dual2.mul p a b).real = a.real * b.real ∧
+      Dual2.den (Dual2.mul p a b) n = Dual2.den a n * b.real + Dual2.den b n * a.real ∧
+      Dual2.den2 (Dual2.mul p a b) n w = Dual2.den2 a n w * b.real + Dual2.den2 b n w * a.real
+        + half * (Dual2.den a n * Dual2.den b w + Dual2.den a w * Dual2.den b n)) :=
+  ⟨⟨(Dual2.add_spec p a b ha hb hp).real, (Dual2.add_spec p a b ha hb hp).den n,
+    (Dual2.add_spec p a b ha hb hp).den2 n w⟩,
+   ⟨(Dual2.sub_spec p a b ha hb hp).real, (Dual2.sub_spec p a b ha hb hp).den n,
+    (Dual2.sub_spec p a b ha hb hp).den2 n w⟩,
+   ⟨(Dual2.mul_spec p a b ha hb hp).real, (Dual2.mul_spec p a b ha hb hp).den n,
+    (Dual2.mul_spec p a b ha hb hp).den2 n w⟩⟩
+
+/-- Layout is irrelevant at second order too: any other representation of the same two numbers (other
+order, zero-padded variables, shared or unshared storage) gives the same result, name by name and
+name-pair by name-pair. -/
+theorem C03_layout_irrelevant_dual2 (p p' : Bool) (a a' b b' : Dual2 α)
+    (ha : a.WF) (ha' : a'.WF) (hb : b.WF) (hb' : b'.WF)
+    (hp : p = true → a.vars = b.vars) (hp' : p' = true → a'.vars = b'.vars)
+    (hra : a.real = a'.real) (hda : ∀ n, Dual2.den a n = Dual2.den a' n)
+    (hha : ∀ n w, Dual2.den2 a n w = Dual2.den2 a' n w)
+    (hrb : b.real = b'.real) (hdb : ∀ n, Dual2.den b n = Dual2.den b' n)
+    (hhb : ∀ n w, Dual2.den2 b n w = Dual2.den2 b' n w) (n w : String) :
+    Dual2.den2 (Dual2.add p a b) n w = Dual2.den2 (Dual2.add p' a' b') n w ∧
+    Dual2.den2 (Dual2.sub p a b) n w = Dual2.den2 (Dual2.sub p' a' b') n w ∧
+    Dual2.den2 (Dual2.mul p a b) n w = Dual2.den2 (Dual2.mul p' a' b') n w ∧
+    Dual2.den (Dual2.mul p a b) n = Dual2.den (Dual2.mul p' a' b') n := by
+  have h := C03_hom_dual2 p a b ha hb hp n w
+  have h' := C03_hom_dual2 p' a' b' ha' hb' hp' n w
+  refine ⟨?_, ?_, ?_, ?_⟩
+  · rw [h.1.2.2, h'.1.2.2, hha, hhb]
+  · rw [h.2.1.2.2, h'.2.1.2.2, hha, hhb]
+  · rw [h.2.2.2.2, h'.2.2.2.2, hha, hhb, hra, hrb, hda n, hda w, hdb n, hdb w]
+  · rw [h.2.2.2.1, h'.2.2.2.1, hda, hdb, hra, hrb]
+
+/-- …and the pointer-equality flag is irrelevant under the invariant. -/
+theorem C03_ptr_irrelevant_dual2 (a b : Dual2 α) (h : a.vars = b.vars) :
+    Dual2.add true a b = Dual2.add false a b ∧ Dual2.sub true a b = Dual2.sub false a b ∧
+    Dual2.mul true a b = Dual2.mul false a b := by
+  simp only [Dual2.add, Dual2.sub, Dual2.mul, Dual2.aligned_ptr_irrelevant a b h, and_self]
+
+end Second
+
 /-! Non-vacuity: the hypotheses are met by concrete numbers with different layouts. -/
 example : (⟨2, ["x", "y"], [1, 3]⟩ : Dual ℤ).WF ∧ (⟨5, ["y", "z"], [4, 7]⟩ : Dual ℤ).WF := by
   constructor <;> exact ⟨by decide, rfl⟩
+
+example : (⟨2, ["x", "y"], [1, 3], [[1, 2], [2, 5]]⟩ : Dual2 ℚ).WF ∧
+    (⟨5, ["y", "z"], [4, 7], [[0, 1], [1, 3]]⟩ : Dual2 ℚ).WF := by
+  constructor <;> exact ⟨by decide, rfl, rfl, by decide⟩
 
 end Rateslib
